@@ -233,6 +233,8 @@ def gen_C17(rnd, n, tier):
     for q, pth in enumerate(["data\\maps\\Route1\\scripts.pory", "data\\maps\\Route2\\scripts.pory", "Route3/scripts.pory"]):
         srcp = "script Route%d_Sign {\n  lock\n  msgbox(\"sign %d\")\n  release\n}\n" % (q, q)
         cp = base_cfg(lm=True, path=pth); base.append((Case(compile_line(cp, srcp), srcp, cp, {}), 3))
+    srcenv = 'script S {\n  poryswitch(GAME) { RUBY: r _: o }\n  poryswitch(LANG) { DE { d } _ { e } }\n}\n'
+    cenv = base_cfg(switches={"GAME": "RUBY"}); base.append((Case(compile_line(cenv, srcenv), srcenv, cenv, {}), 4))
     # two label clashes in different chunks of one script: always the same one is reported
     for bad in ["script Sign {\n  lock\nSign_1:\n  if (flag(FLAG_READ)) {\nSign_2:\n    msgbox(\"Nothing new.\")\n  }\n  release\n}\n",
                 "script W {\n  while (flag(F)) {\nW_Text_0:\n    msgbox(\"x\")\nW_3:\n    a\n  }\nW_1:\n  b\n}\n"]:
@@ -447,13 +449,14 @@ def sep(r, force):
         elif x < 0.75: parts.append("\n")
         elif x < 0.8: parts.append("\r\n")
         elif x < 0.9: parts.append("# cömment " + r.choice(["x", "€", "if (", "a \x00 b", "C:\\dir\\", "40 steps", "1"]) + "\n")
-        else: parts.append(r.choice(["// c\n", "// c\n", "// path\\\n", "#1 x\n"]))
+        else: parts.append(r.choice(["// c\n", "// c\n", "// path\\\n", "#1 x\n", "# maps/*/x /* y\n", "// */ z\n", "# 2 potions\n", "//*\n", "#/* \"q\n"]))
     return "".join(parts)
 
 def needs_sep(a, b):
     (ka, ta), (kb, tb) = a, b
     if kb == "num" and tb.startswith("-") and ka in ("id", "num") or (kb == "num" and tb.startswith("-") and ta == ")"): return False   # BASE-1 is BASE, -1
     if ka == "p" and ta in "(){}[],:*" and kb == "p" and tb in "(){}[],:*": return False
+    if ka == "num" and kb == "id" and tb.startswith("_") and ta != "0x": return False        # 2_x is 2, _x
     return True
 
 def render_lexemes(ls, r):
@@ -558,6 +561,7 @@ def gen_C20(rnd, n, tier):
         pre = p_block(plain_body(rnd), 1)      # statements before, inside script S
         npre = pre.count("\n")
         head = ["script Other {", "  nop", "}"] if rnd.random() < 0.5 else []
+        if rnd.random() < 0.3: head = head + [rnd.choice(["# 2 potions for the player", "#1 first choice", "# 100 \"f.pory\"", "// 7 x", "# see maps/*/x /* y"])]
         # where the offending script body sits: a plain script, the selected (or fallback) case of a
         # statement poryswitch, an inline map script, an inline script of a map script table row
         wrap = "plain"
@@ -609,7 +613,9 @@ def gen_C20(rnd, n, tier):
             src = assemble(head, body)
         elif kind == "dup_case":
             ctx_open, ctx_close = rnd.choice([([], []), (["  while (flag(L)) {"], ["  }"])])
-            body = bl + ctx_open + ["  switch (var(V)) {", "    case 1: a", "    case 2:", "    case 1: b", "  }"] + ctx_close
+            last = rnd.choice(["    case 1: b", "    case 1: b", "    case 1:", "    case 1:"])
+            tailc = rnd.choice([[], [], ["    default: d"], ["    case 3:"]]) if last.endswith(":") else []
+            body = bl + ctx_open + ["  switch (var(V)) {", "    case 1: a", "    case 2:", last] + tailc + ["  }"] + ctx_close
             line = len(head) + 1 + len(bl) + len(ctx_open) + 4
             src = assemble(head, body)
         elif kind == "two_defaults":
